@@ -5,7 +5,7 @@
    (Spec.mate_in / mated_in) on searches of the real engine. *)
 From Coq Require Import Permutation.
 From Walleye Require Import Model.Search Spec.Minimax Spec.Abs Proofs.MateText Proofs.DrawTableProofs Proofs.TableRestored Proofs.RootProofs
-  Proofs.CheckProofs Proofs.GenerateAbs Proofs.LegalMoves Proofs.PVSRoot Proofs.MateInOne Proofs.PositionGo.
+  Proofs.CheckProofs Proofs.GenerateAbs Proofs.LegalMoves Proofs.PVSRoot Proofs.MateInOne Proofs.PositionGo Proofs.ClockSim.
 Open Scope Z_scope.
 
 (* N is never 0 for any value a completed root evaluation can take, and has the sign of the score *)
@@ -37,40 +37,40 @@ Proof.
   destruct (legal_moves (abs m)); [tauto|]. split; [intros [X _]; discriminate X|discriminate].
 Qed.
 
-(* a mate in one is played: in an uninterrupted iteration of depth 1..3 over the generated moves (in any order, with
+(* a mate in one is played: in an iteration of depth 1..3 at whose end the clock (any expiry index k) has not expired over the generated moves (in any order, with
    any ranking), if some move mates (and the mated position has not already occurred twice - it cannot have occurred
    at all in a legal game), the iteration ends by reporting MATE_SCORE - 1, which is printed `score mate 1`, and by
    sending a move after which the opponent is mated *)
 Theorem C11_mate_in_one_is_played : forall zt osort,
   (forall i l, Permutation l (osort i l)) ->
-  forall fuel F first t d b ms0 ms ws r o r2 m1,
+  forall k fuel F first t d b ms0 ms ws r o r2 m1,
   1 <= d <= 3 -> 1 + Z.of_nat F <= 100 -> dt_nonneg t ->
   Forall2 same_move ms0 (generate_moves zt b AllMoves) -> Permutation ms0 ms ->
   Forall2 (fun m x => negamax zt F m (d - 1) 1 t = Some x) (generate_moves zt b AllMoves) ws ->
   In m1 (generate_moves zt b AllMoves) -> mated zt m1 -> is_threefold_repetition t m1 = false ->
   dt_equiv (table (r_s r)) t ->
-  root_moves zt osort None fuel first ms d NEG_INF r = Ok (o, r2) ->
+  root_moves zt osort k fuel first ms d NEG_INF r = Ok (o, r2) -> quiet k (r_s r2) ->
   exists r' mov line evs,
     o = Some r' /\ r_events r' = Info d (MATE_SCORE - 1) line :: Send mov :: evs /\ r_best r' = Some mov /\
     In mov ms /\ mated zt mov /\ mate_number (MATE_SCORE - 1) = Some 1.
 Proof.
-  intros zt osort P fuel F first t d b ms0 ms ws r o r2 m1 Hd HF NN SM Pm HFv Hm MT NR E H.
-  destruct (mate_in_one_is_played zt osort P fuel F first t d b ms0 ms ws r o r2 m1 Hd HF NN SM Pm HFv Hm MT NR E H)
+  intros zt osort P k fuel F first t d b ms0 ms ws r o r2 m1 Hd HF NN SM Pm HFv Hm MT NR E H Q.
+  destruct (mate_in_one_is_played zt osort P k fuel F first t d b ms0 ms ws r o r2 m1 Hd HF NN SM Pm HFv Hm MT NR E H Q)
     as (r' & mov & line & evs & A1 & A2 & A3 & A4 & A5).
   exists r', mov, line, evs. split; [exact A1|]. split; [exact A2|]. split; [exact A3|]. split; [exact A4|]. split; [exact A5|reflexivity].
 Qed.
 
-(* not walking into a mate in one: in an uninterrupted iteration of depth 2 or 3, if some move does not let the
+(* not walking into a mate in one: in an iteration of depth 2 or 3 that ends before the clock expires, if some move does not let the
    opponent mate at once, the move sent does not either *)
 Theorem C11_avoidable_mate_is_avoided : forall zt osort,
   (forall i l, Permutation l (osort i l)) ->
-  forall fuel F first t d b ms0 ms ws r o r2 m1,
+  forall k fuel F first t d b ms0 ms ws r o r2 m1,
   2 <= d <= 3 -> 1 + Z.of_nat F <= 100 -> dt_nonneg t ->
   Forall2 same_move ms0 (generate_moves zt b AllMoves) -> Permutation ms0 ms ->
   Forall2 (fun m x => negamax zt F m (d - 1) 1 t = Some x) (generate_moves zt b AllMoves) ws ->
   In m1 (generate_moves zt b AllMoves) -> ~ (is_threefold_repetition t m1 = false /\ allows_mate zt t m1) ->
   dt_equiv (table (r_s r)) t ->
-  root_moves zt osort None fuel first ms d NEG_INF r = Ok (o, r2) ->
+  root_moves zt osort k fuel first ms d NEG_INF r = Ok (o, r2) -> quiet k (r_s r2) ->
   exists r' mov line evs e,
     o = Some r' /\ r_events r' = Info d e line :: Send mov :: evs /\ r_best r' = Some mov /\ In mov ms /\
     ~ (is_threefold_repetition t mov = false /\ allows_mate zt t mov).
